@@ -123,57 +123,69 @@ func (ex *Exec) assume(st *State, c *Term) bool {
 	return true
 }
 
-// simp evaluates a boolean term against syntactic facts of the path.
+// simp evaluates a boolean term against syntactic facts of the path. The
+// traversal is memoised and depth-limited so that large shared guard DAGs
+// cost linear time.
 func (ex *Exec) simp(st *State, c *Term) *Term {
+	if c.IsConst() {
+		return c
+	}
+	if len(st.facts) == 0 {
+		return c
+	}
+	return ex.simpD(st, c, 5, map[int]*Term{})
+}
+
+func (ex *Exec) simpD(st *State, c *Term, depth int, memo map[int]*Term) *Term {
 	if c.IsConst() {
 		return c
 	}
 	if f, ok := st.facts[c.id]; ok {
 		return ex.tb.Bool(f == 1)
 	}
+	if depth == 0 {
+		return c
+	}
+	if r, ok := memo[c.id]; ok {
+		return r
+	}
+	r := c
 	switch c.op {
 	case OpNot:
-		in := ex.simp(st, c.args[0])
+		in := ex.simpD(st, c.args[0], depth-1, memo)
 		if in != c.args[0] {
-			return ex.tb.Not(in)
+			r = ex.tb.Not(in)
 		}
 	case OpEq:
 		a, b := c.args[0], c.args[1]
 		if b.IsConst() {
 			if k, ok := st.eqc[a.id]; ok && k != b {
-				return ex.tb.False
+				r = ex.tb.False
 			}
 		} else if a.IsConst() {
 			if k, ok := st.eqc[b.id]; ok && k != a {
-				return ex.tb.False
+				r = ex.tb.False
 			}
 		}
-	case OpAnd:
+	case OpAnd, OpOr:
 		changed := false
 		out := make([]*Term, len(c.args))
 		for i, a := range c.args {
-			out[i] = ex.simp(st, a)
+			out[i] = ex.simpD(st, a, depth-1, memo)
 			if out[i] != a {
 				changed = true
 			}
 		}
 		if changed {
-			return ex.tb.And(out...)
-		}
-	case OpOr:
-		changed := false
-		out := make([]*Term, len(c.args))
-		for i, a := range c.args {
-			out[i] = ex.simp(st, a)
-			if out[i] != a {
-				changed = true
+			if c.op == OpAnd {
+				r = ex.tb.And(out...)
+			} else {
+				r = ex.tb.Or(out...)
 			}
-		}
-		if changed {
-			return ex.tb.Or(out...)
 		}
 	}
-	return c
+	memo[c.id] = r
+	return r
 }
 
 func (ex *Exec) pcTerm(st *State) *Term { return ex.tb.And(st.pc...) }
@@ -275,10 +287,18 @@ func (ex *Exec) loadPath(v Value, path []PathEl) Value {
 // cell returns element k of a with the store log folded in.
 func (ex *Exec) cell(a *ArrayV, k int) Value {
 	v := a.e[k]
+	junk := a.acc && k >= a.accBase && len(a.log) > 0
+	if junk {
+		v = nil // the first applicable append supplies the value
+	}
+	defer func() {}()
 	for _, ev := range a.log {
 		if ev.idx.IsConst() {
 			if ev.idx.val != uint64(k) {
 				continue
+			}
+			if v == nil {
+				v = a.e[k]
 			}
 			v = ex.storePath(v, ev.rest, ev.val, ev.g)
 			continue
@@ -290,7 +310,27 @@ func (ex *Exec) cell(a *ArrayV, k int) Value {
 		if c.IsFalse() {
 			continue
 		}
+		if v == nil && len(ev.rest) == 0 {
+			v = ev.val
+			continue
+		}
+		if v == nil {
+			v = a.e[k]
+		}
 		v = ex.storePath(v, ev.rest, ev.val, c)
+	}
+	if v == nil {
+		v = a.e[k]
+	}
+	if debugVC {
+		if pv, ok := v.(*PtrV); ok {
+			for _, al := range pv.alts {
+				if al.obj == 0 {
+					fmt.Printf("CELLNIL k=%d acc=%v base=%d log=%d alts=%d junk=%v\n", k, a.acc, a.accBase, len(a.log), len(pv.alts), junk)
+					break
+				}
+			}
+		}
 	}
 	return v
 }
@@ -355,12 +395,12 @@ func (ex *Exec) storePath(v Value, path []PathEl, nv Value, g *Term) Value {
 		})
 		return &ArrayV{e: e}
 	}
-	if len(a.log) >= 96 {
+	if len(a.log) >= 256 {
 		a = ex.flatten(a)
 	}
 	// symbolic index (or a store on top of logged stores): append to the log
 	log := append(a.log[:len(a.log):len(a.log)], wevent{g: g, idx: el.idx, rest: path[1:], val: nv})
-	return &ArrayV{e: a.e, log: log}
+	return &ArrayV{e: a.e, log: log, acc: a.acc, accBase: a.accBase}
 }
 
 // load dereferences p. Nil alternatives raise a VC.
@@ -373,6 +413,14 @@ func (ex *Exec) load(st *State, p *PtrV, site string) Value {
 		}
 	}
 	if hasNil {
+		if debugVC {
+			fmt.Printf("LOADNIL %s: alts=%d\n", site, len(p.alts))
+			for i, a := range p.alts {
+				if i < 12 || a.obj == 0 {
+					fmt.Printf("   alt %d obj=%d gconst=%v\n", i, a.obj, a.g.IsConst())
+				}
+			}
+		}
 		var nilG []*Term
 		for _, a := range ex.eff(p) {
 			if a.obj == 0 {
@@ -819,11 +867,47 @@ func (ex *Exec) appendOp(st *State, s, t *SliceV, elem types.Type, site string) 
 	// length); the model over-allocates to a constant so that the following
 	// appends of an accumulator are in place and decided by ranges.
 	var gs []*Term
+	allNil := true
 	for _, a := range grow {
 		gs = append(gs, a.g)
+		if a.obj != 0 {
+			allNil = false
+		}
 	}
 	growG := tb.Or(gs...)
-	cnt := ex.umaxLen(st, newLen, site)
+	if allNil {
+		// a nil slice has length 0 whatever the merged length term says
+		n = ex.i64(0)
+	}
+	cnt := ex.umaxLen(st, tb.Add(n, k), site)
+	// Growing from nil while another alternative of the same slice already
+	// owns an accumulator array with room: the two alternatives are mutually
+	// exclusive, every store is guarded by its alternative's condition, and a
+	// fresh array has no aliases, so the nil alternative may share that
+	// array's storage instead of getting an object of its own.
+	if allNil {
+		for ri := range res.alts {
+			x := res.alts[ri]
+			if x.obj == 0 || x.cp == nil || !x.cp.IsConst() || !x.off.IsConst() || x.off.val != 0 {
+				continue
+			}
+			av, ok := ex.obj(st, x.obj).v.(*ArrayV)
+			if !ok || !av.acc || int(x.cp.val) < cnt || int(x.cp.val) > len(av.e) {
+				continue
+			}
+			for i := 0; i < kmax; i++ {
+				g := tb.And(growG, tb.Slt(ex.i64(i), k))
+				if g.IsFalse() {
+					continue
+				}
+				ex.storeObj(st, x.obj, []PathEl{{idx: tb.Add(n, ex.i64(i))}}, add[i], g, site)
+			}
+			ex.addAlloc(st, tb.Ite(growG, tb.Mul(k, ex.i64(2*int(ex.sizeof(elem)))), ex.i64(0)))
+			res.alts[ri].g = tb.Or(x.g, growG)
+			res.cp = ex.sliceCap(res)
+			return res
+		}
+	}
 	capNew := 2 * cnt
 	if capNew < ex.Kgrow {
 		capNew = ex.Kgrow
@@ -864,6 +948,7 @@ func (ex *Exec) appendOp(st *State, s, t *SliceV, elem types.Type, site string) 
 		elems[j] = v
 	}
 	id := ex.newArrayObj(st, elem, elems, false)
+	st.heap[id].v = &ArrayV{e: elems, acc: true, accBase: cnt}
 	// the allocation counter charges twice the new length (amortised doubling
 	// of the real runtime), not the model's constant slack
 	capT := ex.i64(capNew)
